@@ -7,7 +7,7 @@
    This file contains only statements closed by `exact`, their assumptions and non-vacuity examples.
    Generated once by tools/genprops.py from the proved lemmas (statements restated verbatim). *)
 From Coq Require Import List NArith ZArith Bool Lia.
-From Viv Require Import Base.Assoc Base.Tree Model.Paths Model.Wire Proofs.Paths_proofs Proofs.Wire_proofs Proofs.Wire15_proofs.
+From Viv Require Import Base.Assoc Base.Tree Model.Paths Model.Wire Proofs.Paths_proofs Proofs.Wire_proofs Proofs.Wire15_proofs Model.CompState Proofs.WireStar_proofs Proofs.CompState_proofs.
 Import ListNotations.
 
 (* declarations by several processes: different _value for one variable is an error *)
@@ -172,6 +172,85 @@ Theorem C15_explicit_else_default_partial :
 Proof. exact @explicit_else_default_partial. Qed.
 Print Assumptions C15_explicit_else_default_partial.
 
+(* A COMPOSITE'S initial_state() PLACES EACH PROCESS'S OWN VALUES AT THE NODES ITS PORTS ARE WIRED TO: if process i supplies z for the variable vp, which its view reads at node r, no other variable of that process is wired at, above or below r, no later-visited process writes at, above or below r and the explicit state says nothing there, then the result holds z at r *)
+Theorem C15_initial_state_places :
+  forall (t : store) (ps : list cproc) (state res0 : list (key * utree)) 
+           (i : nat) (p : cproc) (c : list (pkey * schema)) (v : vtree) (vp : list key) 
+           (z : Z) (r : list key),
+         composite_state ps state = Ok res0 ->
+         nth_error ps i = Some p ->
+         wfs (SNode false c) (cp_topo p) true = true ->
+         view t (cp_parent p) (SNode false c) (cp_topo p) = Ok v ->
+         uwf (UD (cp_own p)) = true ->
+         conf (SNode false c) v (UD (cp_own p)) ->
+         uget (cp_own p) vp = Some (UV z) ->
+         vget v vp = Some (VRef r) ->
+         r <> [] ->
+         (forall (vp' : list key) (z' : Z) (r' : list key),
+          vp' <> vp ->
+          uget (cp_own p) vp' = Some (UV z') ->
+          vget v vp' = Some (VRef r') -> pcomparable r' r = false) ->
+         (forall (j : nat) (q : cproc) (s : list (key * utree)),
+          i < j ->
+          nth_error ps j = Some q ->
+          cp_sub q s -> uwf (UD (cp_own q)) = true /\ uget_disjoint r s = true) ->
+         uwf (UD state) = true -> uget_disjoint r state = true -> uget res0 r = Some (UV z).
+Proof. exact @initial_state_places. Qed.
+Print Assumptions C15_initial_state_places.
+
+(* ... and whatever the processes supply, a value of the composite's explicit state (or of the initial_state passed in the config) is what the result holds *)
+Theorem C15_explicit_state_wins :
+  forall (ps : list cproc) (state res0 : list (key * utree)) (r : list key) (z : Z),
+         composite_state ps state = Ok res0 ->
+         uwf (UD state) = true -> uget state r = Some (UV z) -> uget res0 r = Some (UV z).
+Proof. exact @explicit_state_wins. Qed.
+Print Assumptions C15_explicit_state_wins.
+
+(* ... one process: inverse_topology(multi_updates=False) of a conforming own state holds each value at the node the view reads it from *)
+Theorem C15_own_value_placed :
+  forall (t : store) (a : list key) (c : list (pkey * schema)) (tp : list (pkey * topo))
+           (v : vtree) (own : list (key * utree)) (vp : list key) (z : Z) 
+           (r : list key) (sub : list (key * utree)),
+         wfs (SNode false c) tp true = true ->
+         view t a (SNode false c) tp = Ok v ->
+         uwf (UD own) = true ->
+         conf (SNode false c) v (UD own) ->
+         uget own vp = Some (UV z) ->
+         vget v vp = Some (VRef r) ->
+         r <> [] ->
+         (forall (vp' : list key) (z' : Z) (r' : list key),
+          vp' <> vp ->
+          uget own vp' = Some (UV z') -> vget v vp' = Some (VRef r') -> pcomparable r' r = false) ->
+         invert_nm a own tp = Ok sub -> uget sub r = Some (UV z).
+Proof. exact @own_value_placed. Qed.
+Print Assumptions C15_own_value_placed.
+
+(* read/write symmetry for the multi_updates=False walk *)
+Theorem C15_invert_nm_single :
+  forall (t : store) (a : list key) (c : list (pkey * schema)) (tp : list (pkey * topo))
+           (v : vtree) (vp r : list key) (z : Z),
+         wfs (SNode false c) tp true = true ->
+         svar_path (SNode false c) vp = true ->
+         view t a (SNode false c) tp = Ok v ->
+         vget v vp = Some (VRef r) ->
+         invert_nm a (usingle_top vp (UV z)) tp = Ok (usingle_top r (UV z)).
+Proof. exact @invert_nm_single. Qed.
+Print Assumptions C15_invert_nm_single.
+
+(* deep_merge: the later dict wins at every leaf it has *)
+Theorem C15_deep_merge_u_later_wins :
+  forall (a b : list (key * utree)) (p : list key) (z : Z),
+         uwf (UD b) = true -> uget b p = Some (UV z) -> uget (deep_merge_u a b) p = Some (UV z).
+Proof. exact @deep_merge_u_later_wins. Qed.
+Print Assumptions C15_deep_merge_u_later_wins.
+
+(* deep_merge: what the later dict does not touch is kept *)
+Theorem C15_deep_merge_u_keeps :
+  forall (a b : list (key * utree)) (p : list key),
+         uwf (UD b) = true -> uget_disjoint p b = true -> uget (deep_merge_u a b) p = uget a p.
+Proof. exact @deep_merge_u_keeps. Qed.
+Print Assumptions C15_deep_merge_u_keeps.
+
 
 Definition ex_sch := SNode false [(PK 1%N, SVar {| dd := Some 5%Z; dv := None; du := None; ds := None |});
                                   (PK 2%N, SNode false [(PK 3%N, SVar {| dd := Some 7%Z; dv := None; du := None; ds := None |})])].
@@ -180,4 +259,8 @@ Example ex_build : exists s', apply_config None ex_sch = Ok s' /\ plain_schema e
   option_map l_val (leaf_at (apply_defaults r) [1%N]) = Some (Some 5%Z) /\
   option_map l_val (leaf_at (apply_defaults r) [2%N; 3%N]) = Some (Some 9%Z).
 Proof. eexists. split; [reflexivity|]. split; [reflexivity|]. eexists. split; [reflexivity|]. split; reflexivity. Qed.
+
+(* two processes (plain ports and a glob port) and an explicit state: placed, placed through the glob, overridden *)
+Check CompStateEx.initial_state_three_behaviours.
+Check CompStateEx.later_process_wins.
 
